@@ -73,12 +73,12 @@ def r1(ctx, F):
 
 
 def r2(ctx, F):
-    methods = [m for m in F.methods(adt=PERF, inherent_only=True) if m.name not in NOT_BUILDERS
+    methods = [m for m in F.methods(adt=PERF, inherent_only=True) if m.name not in NOT_BUILDERS and m.is_pub
                and m.j['output'].get('adt') == PERF and m.j['inputs'] and m.j['inputs'][0].get('adt') == PERF]
     narms = 0
     for m in methods:
         ctx.saw(m)
-        cond, vals = arms.arm_return_values(m)
+        vals = per_variant_values(F, m)
         if not vals:
             ctx.violation('C18-R2', '%s:shape' % m.name, 'Performance::%s does not dispatch on its variant with one match' % m.name, m.where())
             continue
@@ -128,6 +128,40 @@ def r2(ctx, F):
             ctx.violation('C18-R2', '%s:%s:missing' % (m.name, CAP[mode]), 'no arm for %s in Performance::%s' % (CAP[mode], m.name), m.where())
     ctx.floor('C18-R2', len(methods), 23, 'Performance builder methods')
     ctx.floor('C18-R2', narms, 92, 'Performance dispatch arms')
+
+
+def per_variant_values(F, m):
+    """{variant: value of the method for that variant of `self`} — read from every path (match, if-let chains, nested tests), and through
+    a private dispatch helper that receives `self` and closures; None when some variant has no single value"""
+    import combin
+    variants = [CAP[x] for x in MODES]
+    ident = [('param', i + 1) for i in range(len(m.j['inputs']))]
+    sp = arms.specialized_paths(m, ident)
+    if sp is None:
+        return None
+    if not any(c == ('discr', ('param', 1)) for rest, _ in sp for c, _ in rest):
+        rv = prov.strip(prov.prov_of(m).return_value(), names=set())
+        h = F.fn(rv[1].get('path') or '') if rv[0] == 'call' and rv[1].get('local') else None
+        if h is None or not rv[2] or rv[2][0] != ('param', 1):
+            return None
+        sp = arms.specialized_paths(h, rv[2])
+        if sp is None:
+            return None
+        sp = [(rest, combin.expand(F, val)) for rest, val in sp]
+    out = {}
+    for V in variants:
+        seen = []
+        for rest, val in sp:
+            ok = True
+            for c, lab in rest:
+                if c == ('discr', ('param', 1)) and V not in lab.split('|'):
+                    ok = False
+            if ok and val not in seen:
+                seen.append(val)
+        if len(seen) != 1:
+            return None
+        out[V] = seen[0]
+    return out
 
 
 DOC_TABLE = re.compile(r'\|\s*(-?\d+(?:\.\d+)?)\s*\|\s*(-?\d+(?:\.\d+)?)\s*\|')
